@@ -13,7 +13,7 @@ Theorem retry_after_refusal (s : kvs V) o s1 r1 sv1 :
   Inv s -> kv_step veqb false s o = (s1, r1, sv1) ->
   kv_step veqb true s1 o = kv_step veqb true s o /\ Inv s1.
 Proof.
-  intros I H. assert (E : s1 = s) by exact (rollback_exact I H).
+  intros I H. assert (E : s1 = s) by (first [exact (@rollback_exact V veqb veqb_spec s o s1 r1 sv1 I H) | exact (@rollback_exact V veqb s o s1 r1 sv1 I H)]).
   subst s1. split; [reflexivity|exact I].
 Qed.
 
